@@ -20,6 +20,7 @@ CONSTANTS Graphs,      \* subset of DOMAIN GraphDefs
           SAMPLE,      \* 0 = every table; k > 0 = k random tables per graph (seeded by TLC's -seed)
           ExhGraphs,   \* graphs whose emitting-only, edge-state instances are enumerated completely
           Moves,       \* subset of DOMAIN MoveDefs (transition terms)
+          Debugs,      \* subset of BOOLEAN: package logger at DEBUG
           EMIT
 
 VARIABLES I, cf, M, R, hist
@@ -66,11 +67,11 @@ MkInst(g, oe, qe, qn, mv) ==
     tr |-> [move |-> mv[1], moveNE |-> mv[2], back |-> 0] ]
 
 Init ==
-  \E g \in Graphs, oe \in NodeModes, ne \in NEs, w \in Widths, cut \in Cuts, mv \in Moves :
+  \E g \in Graphs, oe \in NodeModes, ne \in NEs, w \in Widths, cut \in Cuts, mv \in Moves, dbg \in Debugs :
     \E qe \in Sample(g \in ExhGraphs /\ oe /\ ~ne, [CellsE(g, oe) -> QE]) :
       \E qn \in (IF ne THEN Sample(FALSE, [CellsN(g, oe) -> QN]) ELSE {[x \in CellsN(g, oe) |-> 0]}) :
         /\ I = MkInst(g, oe, qe, qn, MoveDefs[mv])
-        /\ cf = [onlyEdges |-> oe, ne |-> ne, W |-> w, neLen |-> -1, neMax |-> 100, secondOrder |-> FALSE, slack |-> 0, tables |-> TRUE,
+        /\ cf = [onlyEdges |-> oe, ne |-> ne, W |-> w, neLen |-> -1, neMax |-> 100, secondOrder |-> FALSE, slack |-> 0, tables |-> TRUE, debug |-> dbg,
                  maxDist |-> CutDefs[cut].maxDist, maxDistInit |-> CutDefs[cut].maxDistInit,
                  minlp |-> CutDefs[cut].minlp]
         /\ M = NewMatcher /\ R = [path |-> << >>, idx |-> 0, early |-> -1] /\ hist = << >>
@@ -120,6 +121,20 @@ C08 == (Done /\ NoWiden) =>
           /\ [j \in 1..Len(one.R.path) |-> <<Key(one.R.path[j]), one.R.path[j].lp>>]
                = [j \in 1..Len(R.path) |-> <<Key(R.path[j]), R.path[j].lp>>]
 C09 == WellFormed(M.lat)
+\* C19 at design level: with the logger at DEBUG the observables are those of the default level.
+\* (a) restricted to the scope in which the transcribed algorithm guarantees it: no non-emitting states
+\*     and no exact tie in any layer of the default-level lattice;
+\* (b) unrestricted: expected to FAIL (the counterexamples are the recorded findings F-debug-tie and
+\*     F-debug-ne-admission, which TLC reproduces on the specification).
+ObsOf(mr) == <<mr.R.idx, [j \in 1..Len(mr.R.path) |-> <<Key(mr.R.path[j]), mr.R.path[j].lp>>]>>
+NoTies(lat) == \A c \in 1..Len(lat) : \A k \in 1..Len(lat[c]) :
+                  LET L == Live(lat[c][k]) IN \A a, b \in 1..Len(L) : a # b => L[a].lp # L[b].lp
+DebugNeutral == ObsOf(FreshMatch(I, [cf EXCEPT !.debug = TRUE], M.n)) = ObsOf([M |-> M, R |-> R])
+C19scoped == (OnlyMatch /\ ~cf.debug /\ ~cf.ne /\ NoTies(M.lat)) => DebugNeutral
+C19all == (OnlyMatch /\ ~cf.debug) => DebugNeutral
+\* C10 / C16 at design level: reversing every neighbour list (listing order) leaves the canonical result unchanged
+RevI == [I EXCEPT !.nbrs = [n \in DOMAIN I.nbrs |-> Reverse(I.nbrs[n])]]
+C10order == OnlyMatch => Canon(FreshMatch(RevI, cf, M.n)) = Canon([M |-> M, R |-> R])
 
 \* ---- emission of behaviours for replay: one line per maximal or bounded history
 EmitBehaviour ==
